@@ -46,6 +46,12 @@ HOSTILE = ['a b', '$x', '${HOME}', '$(id)', '`id`', 'a;b', '*', '~', '#c', "it's
            '', "'", '"', "'\"'\"'", '$in', '$out', '${in}', 'a:b', 'a=b', '%s', '!x', '{a,b}', '[ab]', '?', '^',
            'x\x01y', 'x\x7fy', '\\n', '\\\\', "\\'", '@', '@@', 'a@b', '--capture', '--', '-h', '--unpickle=x']
 
+# words that collide with the command line of `meson --internal exe` itself (argparse, abbreviations allowed)
+OPTLIKE = ['--', '--capture', '--capture=zz', '--feed=x', '--feed=/dev/null', '--feed', '--unpickle=x', '--unpickle',
+           '--cap', '--f', '--u', '-h', '--help', '--he', '--internal', '@file', '', '-', '-x', '-1', '-hh',
+           '--foo=bar', '-DX=1']
+HOSTILE += OPTLIKE
+
 
 def msn(s: str) -> str:
     """meson single-quoted string literal"""
@@ -139,6 +145,42 @@ def gen_project(rng, idx: int, kind: str, extra: T.List[str], nsites: int) -> T.
         args = ['-DV0=a\nb']
         L.append(f"executable('e0', 'main.c', c_args: {msl(args)})")
         sites.append(Site('e0', 'c_args', 'plain', args, []))
+        return sites, '\n'.join(L) + '\n'
+    if kind == 'optlike':
+        # every option-like word lands in at least one command that runs through `meson --internal exe`
+        modes = ['capture', 'feed', 'env+capture', 'gen-capture', 'capture', 'feed']
+        chunks: T.List[T.List[str]] = [[] for _ in modes]
+        words = list(OPTLIKE)
+        rng.shuffle(words)
+        for j, w in enumerate(words):
+            chunks[j % len(modes)].append(w)
+        for i, (mode, args) in enumerate(zip(modes, chunks)):
+            args = ['lead'] + args + [rng.choice(OPTLIKE)]
+            if mode == 'gen-capture':
+                sid = f'g{i}'
+                L.append(f"gen_{sid} = generator(py, output: '@BASENAME@.h', capture: true, "
+                         f"arguments: [{', '.join(["meson.current_source_dir() / 'dump.py'"] + [msn(a) for a in args] + [msn('@INPUT@'), msn('@OUTPUT@')])}])")
+                L.append(f"executable('x{sid}', 'main.c', gen_{sid}.process('{sid}.in'))")
+                sites.append(Site(sid, 'generator', 'capture', args, []))
+                continue
+            sid = f'ct{i}'
+            env = mkenv(sid, False) if 'env' in mode else []
+            kw = [f"output: '{sid}.out'"]
+            if mode == 'feed':
+                kw += ["input: 'feed.txt'", 'feed: true']
+            if 'capture' in mode:
+                kw.append('capture: true')
+            if env:
+                envdef(f'env_{sid}', env)
+                kw.append(f'env: env_{sid}')
+            L.append(f"custom_target('{sid}', {', '.join(kw)}, command: [py, dump{''.join(', ' + msn(a) for a in args)}])")
+            sites.append(Site(sid, 'custom_target', mode, args, env))
+        targs = ['lead'] + rng.sample(OPTLIKE, 6)
+        L.append(f"test('t9', py, args: [dump, 'mvid=t9'{''.join(', ' + msn(a) for a in targs)}])")
+        sites.append(Site('t9', 'test', 'plain', targs, []))
+        rargs = ['lead'] + rng.sample(OPTLIKE, 6)
+        L.append(f"run_target('rt9', command: [py, dump{''.join(', ' + msn(a) for a in rargs)}])")
+        sites.append(Site('rt9', 'run_target', 'plain', rargs, []))
         return sites, '\n'.join(L) + '\n'
     if kind == 'rsp':
         pargs = [f'-DP{j}=' + hostile(rng, extra, False) for j in range(rng.randint(1, 3))]
@@ -278,7 +320,8 @@ def meson_setup(root: str, src: str, cc: str, rsp: bool) -> T.Tuple[int, str]:
 
 def split_build_line(line: str) -> T.Tuple[T.List[str], str, T.List[str]]:
     """`build outs [| implicit]: rule ins [| deps] [|| order]` -> raw (still escaped) explicit outs, rule, explicit ins"""
-    assert line.startswith('build ')
+    if not line.startswith('build ') or ':' not in line:
+        raise ValueError('not a build line: ' + line[:80])
     toks: T.List[str] = []
     cur = ''
     i = 6
@@ -301,6 +344,8 @@ def split_build_line(line: str) -> T.Tuple[T.List[str], str, T.List[str]]:
         i += 1
     if cur:
         toks.append(cur)
+    if colon_at is None or colon_at >= len(toks):
+        raise ValueError('build line without rule name: ' + line[:80])
     outs = toks[:colon_at]
     rest = toks[colon_at:]
     if '|' in outs:
@@ -412,6 +457,23 @@ def run_project(ctx: Ctx, root: str, kind: str, sites: T.List[Site], text: str,
         ctx.violation(f'setup-failed:{kind}:{err[:80]}', 'meson setup failed on a generated project: ' + err[:300],
                       {'position': 'project', 'project_kind': kind, 'meson_build': text, 'log_tail': tail[-6:]})
         return
+    try:
+        _evaluate_project(ctx, root, b, dumpdir, kind, sites, text)
+    except common.ToolFailure:
+        raise
+    except (ValueError, IndexError, KeyError, AssertionError, AttributeError, TypeError, StopIteration,
+            UnicodeError, OSError) as e:
+        # what meson wrote (build.ninja, dumps of executed commands) does not have the shape the reader expects:
+        # that is an outcome of the implementation, never a crash of the check
+        import traceback
+        ctx.violation(f'unreadable-output:{kind}:{type(e).__name__}',
+                      f'build.ninja / executed commands of a generated project have an unexpected shape: '
+                      f'{type(e).__name__}: {e}',
+                      {'position': 'project', 'project_kind': kind, 'meson_build': text,
+                       'where': traceback.format_exc().strip().split('\n')[-3:]})
+
+
+def _evaluate_project(ctx: Ctx, root: str, b: str, dumpdir: str, kind: str, sites: T.List[Site], text: str) -> None:
     rules, builds = read_manifest(os.path.join(b, 'build.ninja'))
 
     # locate the statement of every site
@@ -453,6 +515,9 @@ def run_project(ctx: Ctx, root: str, kind: str, sites: T.List[Site], text: str,
         for ptok in st['ins'] + st['outs']:
             path_reqs.append(f'nineval ||{enc(ptok)}')
     path_ans = ctx.driver('quote', path_reqs) if path_reqs else []
+    bad = [a for a in path_ans if not a.startswith('ok:')]
+    if bad:
+        raise ValueError('a path on a build line is not valid Ninja text: ' + bad[0])
     it = iter(path_ans)
     lines: T.List[str] = []
     for (s, st), head in zip(jobs, reqs):
@@ -631,7 +696,7 @@ def run_e2e(ctx: Ctx, scratch: str, extra_strings: T.Optional[T.List[str]] = Non
         sites, text = gen_project(rng, idx, 'rsp', extra, 4)
         plan.append(('rsp', sites, text))
         idx += 1
-    for kind in ('nl-env', 'nl-compile'):
+    for kind in ('optlike', 'nl-env', 'nl-compile'):
         sites, text = gen_project(rng, idx, kind, extra, 1)
         plan.append((kind, sites, text))
         idx += 1
